@@ -8,7 +8,7 @@ from props.group_lib import (E_CFAIL, E_CSHUT, E_HBREPLY, E_JOIN, E_START, E_STO
                              O_API, O_HB, O_JOIN, O_LEAVE, O_LOOKUP, O_PARTS, O_SHUTC, O_STARTC, O_STARTD, O_STOPC, O_SYNC)
 
 MODEL = "group"
-TIED = ["C16_consumers_subset_assignment", "C16_commit_identity", "C16_prepare_before_join", "C16_join_only_when_prepared",
+TIED = ["C16_consumers_subset_assignment", "C16_commit_identity", "C16_prepare_before_join", "C16_join_only_when_prepared", "C16_no_consumer_running_at_join", "C16_no_consumer_running_while_joining",
         "C16_evicted_stopped_before_rejoin", "C16_single_join", "C16_heartbeat_only_stable", "C16_after_stop_only_leave", "C16_stop_no_consumers"]
 EVICTING = (K_ILLGEN, K_INVGROUP, K_UNKMEMBER, K_TIMEOUT)
 
@@ -17,6 +17,7 @@ def monitor(kind, steps):
     bad = []
     facts = {"consumers_checked": 0, "startc_checked": 0, "join_checked": 0, "evictions_checked": 0, "heartbeats_checked": 0, "after_stop_steps": 0}
     started = user_stop = leaving = False
+    rn_est = True           # the member needs a (re)join: start, or a Kafka error passed rejoin_after_error since the last successful sync
     cur_asg = None          # assignment of the last successful SyncGroup reply delivered
     shutting = set()        # consumers on which shutdown() was called and that have not stopped
     for i, st in enumerate(steps):
@@ -89,6 +90,8 @@ def monitor(kind, steps):
         for o in out:
             if o[0] == O_HB:
                 facts["heartbeats_checked"] += 1
+                if rn_est and not (user_stop or leaving):
+                    bad.append((i, "C16_heartbeat_only_stable: heartbeat sent while the member needs a rejoin (error since the last successful sync; back-off window)"))
                 if c != E_TICK:
                     bad.append((i, "C16_heartbeat_only_stable: heartbeat sent by %s" % GL.EV_NAMES[c]))
                 if (o[2], o[3]) != (gen, mem):
@@ -103,6 +106,23 @@ def monitor(kind, steps):
             for o in out:
                 if o[0] in (O_LOOKUP, O_JOIN, O_PARTS, O_SYNC) or (o[0] == O_HB and (kind == 0 or leaving)):
                     bad.append((i, "C16_after_stop_only_leave: %s issued after stop()" % GL.OUT_NAMES[o[0]]))
+        # bookkeeping of the estimate, mirroring where rejoin_after_error / a successful sync are reached
+        kk = None
+        if st["delivered"]:
+            if c in (E_JOIN, E_SYNC, GL.E_META, GL.E_PARTS) and ev[2] >= 100:
+                kk = ev[2] - 100
+            elif c == E_HBREPLY and ev[2] >= 100 and st["hb_before"]:
+                kk = ev[2] - 100
+            elif c == E_CFAIL:
+                kk = ev[2]
+            elif c == E_SYNC and ev[2] == 2:
+                kk = GL.K_OTHERKAFKA
+            if kk is not None and kk <= GL.K_OTHERKAFKA:
+                rn_est = True
+                if kk in (K_UNKMEMBER, K_INVGROUP) and not (user_stop or leaving) and obs[9] != 0:
+                    bad.append((i, "C16_evicted_stopped_before_rejoin: %s and the member keeps its member id %d" % (GL.KIND_NAMES[kk], obs[9])))
+            if c == E_SYNC and ev[2] == 0 and any(o[0] == GL.O_SCHED and o[1] == 1 for o in out):
+                rn_est = False
         if any(o[0] in (O_LEAVE, O_STARTD) for o in out):
             leaving = True
     return bad, facts
